@@ -6,7 +6,7 @@ Trace == ndJsonDeserialize("trace.ndjson")
 Ev == Trace[l]
 
 Obs == [len |-> Len(q), cap |-> cap, empty |-> (q = <<>>), full |-> (Len(q) = cap)]
-Step(A) == /\ l' = l + 1 /\ A /\ last'.r = Ev.r /\ Obs' = Ev.o /\ Bounded'
+Step(A) == /\ l' = l + 1 /\ A /\ last'.r = Ev.r /\ ("o" \in DOMAIN Ev => Obs' = Ev.o) /\ Bounded'
 
 TReset == /\ l' = l + 1 /\ Ev.ev = "Reset" /\ q' = <<>>
           /\ cap' = IF "req" \in DOMAIN Ev.s THEN CapOf(Ev.s.req) ELSE Ev.s.cap
@@ -16,7 +16,7 @@ TDrain == /\ l' = l + 1 /\ Ev.ev = "Drain" /\ Ev.d = q /\ UNCHANGED <<q, cap, la
 \* only if the abstract queue is really full / empty
 TBlocked == /\ \/ Ev.ev = "PushWaitNeg" /\ Len(q) = cap
                \/ Ev.ev = "PopWaitNeg" /\ q = <<>>
-            /\ l' = l + 1 /\ Ev.r = <<"blocked">> /\ Obs = Ev.o
+            /\ l' = l + 1 /\ Ev.r = <<"blocked">> /\ ("o" \in DOMAIN Ev => Obs = Ev.o)
             /\ UNCHANGED <<q, cap, last>>
 
 \* n pairs "Push(v) = true; Pop = (v, true)" performed (and checked) by the driver without
